@@ -122,6 +122,11 @@ class HalmosBool:
         return super().__new__(cls)
 
     def __init__(self, value: AnyBool | str, *, do_simplify: bool = True):
+        # __new__ may have returned one of the shared singletons (e.g. for a BoolRef that
+        # simplifies to true/false): never re-initialize them
+        if self is TRUE or self is FALSE:
+            return
+
         match value:
             case bool():
                 self.con_val = value
